@@ -139,10 +139,17 @@ static char * my_strdup(const char * source) {
 
 
 /// Temporary storage while exporting parse tree to output format
+void ran_start(long seed);
+
+
 scratch_pad * scratch_pad_new(mmd_engine * e, short format) {
 	scratch_pad * p = malloc(sizeof(scratch_pad));
 
 	if (p) {
+		// Restart the (process wide) obfuscation stream so that output does
+		// not depend on what was converted earlier in this process
+		ran_start(314159L);
+
 		p->padded = 2;							// Prevent unnecessary leading space
 		p->list_is_tight = false;				// Tight vs Loose list
 		p->skip_token = 0;						// Skip over next n tokens
